@@ -4,7 +4,7 @@
    Record i has the id "r<i>".  No proofs here. *)
 From Coq Require Import NArith ZArith List Bool.
 From KT Require Import Gen.Generated Gen.Alphabet Model.Kmer Model.Show Model.Flt Model.Ops Model.Rows.
-From KT Require Import Proof.RevComp Proof.PosMap Proof.Oligo Proof.Sched Proof.SchedTrace Proof.Batch Proof.Merge Proof.MinConc Proof.MinSpec.
+From KT Require Import Proof.RevComp Proof.PosMap Proof.Oligo Proof.Sched Proof.SchedTrace Proof.Batch Proof.Merge Proof.MinConc Proof.MinSpec Proof.MinFast.
 From KT Require Proof.CountSched Proof.CountTrace Proof.ItemsSched Proof.ItemsTrace.
 Import ListNotations.
 Open Scope N_scope.
@@ -126,7 +126,7 @@ Definition s_cov (k bs bc : nat) (norm : bool) (delim : list N) (recs altrecs : 
 Definition eff_w (w m : nat) (s : list N) : nat := if Nat.eqb w 0 then Nat.max (length s) m else w.
 Definition rec_runs (w m : nat) (s : list N) : list (N * nat * nat) := mg_run nt4m (eff_w w m s) m s.
 Definition rec_runs_spec (w m : nat) (s : list N) : list (N * nat * nat) :=
-  grp_go digit_of_letter (eff_w w m s) m None nil s.
+  spec_runs_fast digit_of_letter (eff_w w m s) m s.       (* = grp_go ... None [] s, Proof/MinFast.v *)
 Fixpoint number {A} (i : nat) (l : list A) : list (nat * A) :=
   match l with [] => [] | x :: t => (i, x) :: number (S i) t end.
 Definition show_s2m_run (txt : nat -> N -> list N) (m : nat) (r : N * nat * nat) : list N :=
